@@ -433,6 +433,9 @@ def special_case(op, sym, k, ca, cb, rng, unary=False):
         rng.shuffle(l)
         return l
     la, lb = lits(sa), lits(sb)
+    same = (not unary) and sa == sb and rng.random() < 0.25
+    if same:
+        lb = list(la)       # the SAME variable on both sides (`a == a`): an operand compared with itself, NaN included
     # operands are built from variables: `a := [pinf e1; qnan e2]`
     pre = SPECIAL_PRELUDE[k]
     na = "a := " + (la[0] if sa == "s" else "[" + "; ".join(" ".join(la[j * sa[0] + i] for j in range(sa[1])) for i in range(sa[0])) + "]")
@@ -440,7 +443,7 @@ def special_case(op, sym, k, ca, cb, rng, unary=False):
         sb, lb = "s", [la[0]]
     nb = "b := " + (lb[0] if sb == "s" else "[" + "; ".join(" ".join(lb[j * sb[0] + i] for j in range(sb[1])) for i in range(sb[0])) + "]")
     defs = pre + "\n" + na + "\n" + nb
-    expr = (sym + "a") if unary else ("a %s b" % sym)
+    expr = (sym + "a") if unary else (("a %s a" % sym) if same else ("a %s b" % sym))
     bs = bshape(sa, sb)
     R, C = (1, 1) if bs == "s" else bs
     pairs, seen = [], {}
